@@ -41,6 +41,10 @@ class PageFeatureProcessor:
         if page_df_height == 0:
             return page_attrs
 
+        # Matrix attributes are indexed by the row's position in the whole
+        # table; re-base them so that row i describes this page's i-th row.
+        self._rebase_matrix_rows(page_attrs, page.start_row, page_df_height)
+
         # Clear border_first and border_last from being broadcast to all rows
         if hasattr(page_attrs, "border_first") and page_attrs.border_first:
             page_attrs.border_first = None
@@ -174,6 +178,23 @@ class PageFeatureProcessor:
                     )
 
         return page_attrs
+
+    def _rebase_matrix_rows(self, page_attrs, start_row: int, height: int) -> None:
+        """Slice every row-wise matrix attribute to the rows of this page."""
+        if start_row == 0:
+            return
+        for attr_name in type(page_attrs).model_fields:
+            value = getattr(page_attrs, attr_name)
+            if (
+                isinstance(value, list)
+                and len(value) > 1
+                and all(isinstance(row, list) for row in value)
+            ):
+                setattr(
+                    page_attrs,
+                    attr_name,
+                    [value[(start_row + i) % len(value)] for i in range(height)],
+                )
 
     def _apply_body_border_first(self, document, page_attrs, page_df_width, page_shape):
         """Helper to apply body border_first logic."""
